@@ -101,6 +101,7 @@ def run(env) -> Result:
     for _ in range(250 if tier == "quick" else 8000):
         trees.append(defs.Gen(rnd, max_depth=rnd.choice([1, 2])).struct())
     nplans = [0]
+    ncompiles = [0]
 
     def probe(tree, endian, align, ptr):
         Li, erri = load(tree, endian=endian, align=align, compiled=False, pointer=ptr)
@@ -128,6 +129,13 @@ def run(env) -> Result:
             eng.report("compiled and interpreted classes have different size/alignment/offsets", cd0, sigs)
         # generated source -> plan, validated by the model
         psx = None
+        if not Tc.__compiled__ and "F23" not in sigs:
+            # the generator raised and the class fell back: the model of the compiler (Lean: Compiler.compile) must raise too
+            def cb_fb(s, raw, meta):
+                if s[0] != "fallback":
+                    eng.disagree(f"the real compiler fell back to the interpreted reader, the Lean model of the compiler answers {raw[:200]}", meta, sigs)
+            ncompiles[0] += 1
+            eng.ask(sx([A("compile"), Lc.cfg_sexp(), Lc.ty_sexp()]), cb_fb, cd0)
         if Tc.__compiled__ and "F23" not in sigs:
             try:
                 plan = srcplan.parse_source(Tc._read.__func__.__source__)
@@ -142,6 +150,13 @@ def run(env) -> Result:
                     if s[0] != "ok":
                         eng.disagree(f"the Lean plan validator does not accept the generated source ({raw[:80]})", meta, sigs)
                 eng.ask(sx([A("planok"), Lc.cfg_sexp(), Lc.ty_sexp(), psx]), cb_ok, dict(cd0, source=Tc._read.__func__.__source__))
+
+                # the Lean model of the compiler (Compiler.compile, theorem c03_compile_validates) must emit exactly this plan
+                def cb_cp(s, raw, meta, want="(ok " + sx(psx) + ")"):
+                    if raw != want:
+                        eng.disagree(f"the Lean model of the compiler emits {raw[:400]}, the plan of the generated source is {want[:400]}", meta, sigs)
+                ncompiles[0] += 1
+                eng.ask(sx([A("compile"), Lc.cfg_sexp(), Lc.ty_sexp()]), cb_cp, dict(cd0, source=Tc._read.__func__.__source__))
             except srcplan.Unknown as e:
                 eng.disagree(f"generated source has a statement shape the plan translator does not know: {e}", dict(cd0, source=Tc._read.__func__.__source__), sigs)
         # behaviour
@@ -256,6 +271,7 @@ def run(env) -> Result:
             eng.flush()
     eng.flush()
     res.notes.append(f"{nplans[0]} generated sources translated to plans and validated")
+    res.notes.append(f"{ncompiles[0]} structures compiled by the Lean model of the compiler and compared with the real plan / fallback")
     res.programs = nplans[0]
     res.sample({"definition": defs.render_struct("T", trees[40])})
     res.sample({"definition": defs.render_struct("T", trees[-1])})
